@@ -4,15 +4,19 @@
    replayable case per evaluated transition.  Each case carries the expected
    observation under the Ideal layer and, where they differ, under the sets
    of currently listed deviations (Known, from known_findings.json).        *)
-EXTENDS UcfgMerge, MergeUniverses, Json, SequencesExt
+EXTENDS UcfgMerge, MergeUniverses, Layers, Json, SequencesExt
 
-CONSTANTS UA, UB, PolSet, FosSet,   \* universe
-          Known                     \* deviations currently listed as open findings
+CONSTANTS UA, UB, PolSet, FosSet    \* universe
 
 VARIABLES a, ph, cs
 vars == <<a, ph, cs>>
+\* cached aliases: a constant bound with `<-` in the .cfg is re-evaluated on every use, a definition is not
+cUA == UA
+cUB == UB
+cPolSet == PolSet
+cFosSet == FosSet
 
-DevSets == ({Known} \cup {Known \ {d} : d \in Known}) \ {{}}
+
 
 Case(b, pol, fos) ==
   LET ideal == ObsTop(Merge({}, pol, fos, a, b))
@@ -21,9 +25,9 @@ Case(b, pol, fos) ==
   IN [a |-> a, b |-> b, pol |-> pol, fos |-> fos,
       exp |-> [ideal |-> ideal, alts |-> SetToSeq(diff)]]
 
-Init == a \in UA /\ ph = 0 /\ cs = <<>>
+Init == a \in cUA /\ ph = 0 /\ cs = <<>>
 Next == /\ ph = 0 /\ ph' = 1 /\ a' = a
-        /\ \E b \in UB, pol \in PolSet, fos \in FosSet :
+        /\ \E b \in cUB, pol \in cPolSet, fos \in cFosSet :
              cs' = <<b, pol, fos>> /\ PrintT(ToJson(Case(b, pol, fos)))
 View == <<ph, IF ph = 0 THEN a ELSE Empty>>
 
